@@ -105,6 +105,13 @@ Theorem C03_in_bounds_all : forall b armed id payload scratch t i,
 Proof. exact C03_in_bounds_t_thm. Qed.
 Print Assumptions C03_in_bounds_all.
 
+(* REGISTER_DEVICE_RESULT with any (unknown) 32-bit result_code: the formatted state text stays inside its heap block
+   (allocation size and snprintf bound are read from the default branch of supla_esp_on_register_result on every run) *)
+Theorem C03_register_unknown_in_bounds : forall needed, 0 <= needed ->
+  0 <= reg_unknown_written needed <= REG_UNKNOWN_ALLOC.
+Proof. exact C03_register_unknown_in_bounds_thm. Qed.
+Print Assumptions C03_register_unknown_in_bounds.
+
 (* the code before docs/fixes/C03_rs_config_guards.diff violates both clauses *)
 Theorem C03_old_code_refuted :
   (wf_board board_4rs /\ bytes_ok (rs_config_msg 3 FNC_RS 2) /\
